@@ -103,6 +103,11 @@ def run(ctx: Ctx) -> Result:
             # histories that are redone in other processes use a model with several restricted variables: their order must
             # not depend on the hash seed
             m = gen.rand_model(rng, {**PROF, "p_r": 1.0, "p_q": 1.0, "p_b": 1.0, "p_b_in_filter": 0.7, "p_h": 1.0, "p_h_stoch": 1.0, "max_cells": 900} if (i % 3 == 0 and mk == "1") else PROF)
+            if i % 3 == 1 and mk == "2":
+                # a model whose value arrays have the shape of the conditional continuation values of a 5-agent batch (one
+                # continuous state with 5 nodes, no discrete variable): whatever takes over a caller's buffer can do it here
+                m = gen.rand_model(rng, {**PROF, "p_h": 0.0, "p_r": 0.0, "p_e": 0.0, "p_a": 0.0, "p_b": 0.0, "p_d": 0.0, "p_w": 1.0, "p_c": 1.0,
+                                         "sizes": {"w": 5}, "pad_states": 0})
             models[mk] = m
             psets[mk] = param_variants(rng, m)
             inits[mk] = {"1": qinit(gen.rand_initial_states(rng, m, 3)), "2": qinit(gen.rand_initial_states(rng, m, 5))}
